@@ -1,4 +1,5 @@
 import ScrapliModel.Channel.Ansi
+import ScrapliModel.Gen.ChanConsts
 /-
   Model of the channel read/write logic:
     scrapli/channel/sync_channel.py  (and its textual twin async_channel.py)
@@ -50,6 +51,14 @@ def Wire.read (w : Wire) : Option (Bytes × Wire) :=
     let n := max 1 k
     let r := chanReadH w.held (w.avail.take n)
     some (r.1, { w with avail := w.avail.drop n, cuts := ks, held := r.2 })
+
+/-- `open()` on the same channel object after its transport was closed -- by `close()`, or by the handler of a timeout, which
+    closes the TRANSPORT only: a new session on a new transport (`avail`, `cuts`), nothing written in it yet.  Whether the held-back
+    beginning of an escape sequence of the OLD session is dropped is what the translator measured on the live channel classes
+    (`Gen.Chan.openDropsHeld`). -/
+def Wire.reopen (w : Wire) (avail : Bytes) (cuts : List Nat) : Wire :=
+  { avail := avail, cuts := cuts, writes := [],
+    held := if Scrapli.Gen.Chan.openDropsHeld == some false then w.held else [] }
 
 /-- the chunks a sequence of reads would return (raw, before cleaning) -/
 def piecesOf : Bytes → List Nat → List Bytes
